@@ -1,7 +1,7 @@
 import core
 
 LEVEL = 'exploration'
-RULE = ('23 package variables of all kinds (scalars, string, nil/non-nil slice map pointer func interface error, struct, array, chan), each exported (addressed by pointer) and '
+RULE = ('30 package variables of all kinds (scalars initialised and zero-valued, string, nil/non-nil slice map pointer func interface error, struct, array, chan), each exported (addressed by pointer) and '
         'unexported in another package (addressed by "pkg.name" through the ELF symbol table); generated histories Set/Apply x 0..4 with repeated lookups, then Cancel/Reset once or twice; '
         'after every step the variable\'s memory image and a reader in the defining package are compared with the model (mocked value / snapshot before the first mock); '
         'distinct = (type, exported?, #sets, #cancels, outcome) classes')
